@@ -3,7 +3,7 @@
    leaf default if nothing is stored there (Proofs/StoreMap.v).  Model: Model/Store.v. *)
 From Coq Require Import ZArith List Bool.
 From FT Require Import Model.Base Model.Obs Model.Store Model.StoreCheck
-                       Proofs.StoreWF Proofs.StoreMap.
+                       Proofs.StoreWF Proofs.StoreCheckP Proofs.StoreMap Proofs.StoreMapCheck.
 Import ListNotations.
 Open Scope Z_scope.
 
@@ -59,13 +59,39 @@ Theorem C03_position : forall c cs,
 Proof. exact bisect_index_of. Qed.
 Print Assumptions C03_position.
 
-(* C03_model_meets_spec_partial.  The full statement
-     forall c, wf_case c = true -> holds c03_checker c (model c03_checker c) = true
-   (the replay-on-a-reference-map oracle [c03_holds] accepts the model's own observation for
-   every history) is NOT proved: it needs the list-level facts connecting [content] of the
-   erased tree with [map_of].  What is proved is the pointwise refinement above, from which
-   it follows informally; the runner evaluates the oracle on the model's observation of every
-   generated case (verdict bit 4) so a counterexample among the explored cases would show. *)
+(* the replay-on-a-reference-map oracle [c03_holds] accepts the model's own observation for
+   every well-formed initial tree and every history, whatever the operations (the access
+   families are judged against the map; every other operation re-synchronises the map from
+   the tree).  Invariant carried along the history (Proofs/StoreMapCheck.v, [INV]): the
+   reference map has duplicate-free keys, all of them full points, and reading any full point
+   from it (the default when absent) gives [map_of] of the current state. *)
+Theorem C03_model_meets_spec : forall c,
+  wf_case c = true -> holds c03_checker c (model c03_checker c) = true.
+Proof. exact c03_model_holds. Qed.
+Print Assumptions C03_model_meets_spec.
+
+(* one step of that: from a well-formed state whose values the reference map m describes,
+   any operation that is a legal case is accepted by the oracle's step, and the map the oracle
+   continues with describes the state after the operation *)
+Theorem C03_step_refines : forall s o m,
+  wf_st s -> INV (nranks s) (s_d s) m (root_es s) -> snd (step s o) <> BadAddress ->
+  exists m',
+    c03_step (nranks s) (s_d s) m o (V_outcome (snd (step s o)))
+             (V_state s) (V_state (fst (step s o))) = (true, m')
+    /\ INV (nranks s) (s_d s) m' (root_es (fst (step s o))).
+Proof. exact c03_step_ok. Qed.
+Print Assumptions C03_step_refines.
+
+(* the non-default content of a well-formed tree, read as a map: full points only, no point
+   twice, and the value found for a full point is the stored one (nothing when it is the
+   default) - this is the link between [content] and [map_of] *)
+Theorem C03_content_is_map : forall n d lvl id ow es,
+  (lvl < n)%nat -> wf_fib n lvl es = true ->
+  KeysOk (n - lvl) (content d (erase (INode id ow es)))
+  /\ (forall q, length q = (n - lvl)%nat ->
+        pm_get q (content d (erase (INode id ow es))) = filt d (lookup_i d q es)).
+Proof. exact cfib_view. Qed.
+Print Assumptions C03_content_is_map.
 
 Example C03_nonvacuous :
   let s := init 2 0 (Node [(1, Node [(0, Leaf 0); (3, Leaf 5)]); (4, Node [])]) in
@@ -73,4 +99,22 @@ Example C03_nonvacuous :
   /\ snd (step s (OGetRef [4; 2] (WAdd 7))) = Done (RPay (ILeaf 7))
   /\ map_of (fst (step s (OGetRef [4; 2] (WAdd 7)))) [4; 2] = 7
   /\ map_of (fst (step s (OGetRef [4; 2] (WAdd 7)))) [1; 3] = 5.
+Proof. vm_compute. repeat split. Qed.
+
+(* non-vacuity of C03_model_meets_spec / C03_step_refines: a well-formed 2-rank case whose
+   history exercises every judged family with legal cases (none is BadAddress), including a
+   read refused by getPayload's start_pos assertion and a clear() that re-synchronises *)
+Example C03_spec_nonvacuous :
+  let c := {| h_n := 2; h_d := 0;
+              h_tree := Node [(1, Node [(0, Leaf 0); (3, Leaf 5)]); (4, Node [])];
+              h_ops := [OGetRef [4; 2] (WAdd 7); OGet [1; 3]; OGet [4]; OGetRef [6] WNone;
+                        OGetPos [1] 3 (Some 1%nat); OGetPosRef [1] 2 None; OGetSP [1] 3 (Some 1%nat);
+                        OGetSP [1] 0 (Some 2%nat); OGetRefSP [1] 9 (Some 1%nat) (WAssign 4);
+                        OGetD [1; 8] 11; OClear [1]; OGet [1; 3]] |} in
+  let s0 := init (h_n c) (h_d c) (h_tree c) in
+  wf_case c = true
+  /\ forallb (fun k => match snd (step (run s0 (firstn k (h_ops c))) (nth k (h_ops c) (OGet [])))
+                       with BadAddress => false | _ => true end) (seq 0 (length (h_ops c))) = true
+  /\ snd (step (run s0 (firstn 7 (h_ops c))) (OGetSP [1] 0 (Some 2%nat))) = Rejected
+  /\ holds c03_checker c (model c03_checker c) = true.
 Proof. vm_compute. repeat split. Qed.
